@@ -320,7 +320,7 @@ fn opath_resolve<Fd: AsFd, P: AsRef<Path>>(
         // unlikely that you could even run into a symlink loop (procfs doesn't
         // have regular symlink loops) but we should avoid it just in case.
         symlink_traversals += 1;
-        if symlink_traversals >= MAX_SYMLINK_TRAVERSALS {
+        if symlink_traversals > MAX_SYMLINK_TRAVERSALS {
             Err(ErrorImpl::OsError {
                 operation: "emulated symlink resolution".into(),
                 source: IOError::from_raw_os_error(libc::ELOOP),
